@@ -2,3 +2,7 @@ import ParamVerif.Util.Proto
 import ParamVerif.Selector.ListProxy
 import ParamVerif.Selector.Spec
 import ParamVerif.Props.C18
+import ParamVerif.Dispatch.Spec
+import ParamVerif.Props.C03
+import ParamVerif.Props.C04
+import ParamVerif.Props.C05
